@@ -78,7 +78,7 @@ fn off(d: &[u8], at: usize, size: usize) -> Option<usize> {
 }
 
 /// (count, offset of first object's data - 1, offSize, position after the INDEX)
-fn index_at(d: &[u8], at: usize) -> Option<(usize, usize, usize, usize)> {
+pub fn index_at(d: &[u8], at: usize) -> Option<(usize, usize, usize, usize)> {
     let count = be16(d, at)? as usize;
     if count == 0 {
         return Some((0, 0, 0, at + 2));
@@ -90,7 +90,7 @@ fn index_at(d: &[u8], at: usize) -> Option<(usize, usize, usize, usize)> {
     Some((count, data0, os, data0 + last))
 }
 
-fn index_obj(d: &[u8], at: usize, i: usize) -> Option<&[u8]> {
+pub fn index_obj(d: &[u8], at: usize, i: usize) -> Option<&[u8]> {
     let (count, data0, os, _) = index_at(d, at)?;
     if i >= count {
         return None;
@@ -101,7 +101,7 @@ fn index_obj(d: &[u8], at: usize, i: usize) -> Option<&[u8]> {
 }
 
 /// operators of a DICT with their integer operands (reals skipped as 0)
-fn dict_ops(d: &[u8]) -> Vec<(u16, Vec<i64>)> {
+pub fn dict_ops(d: &[u8]) -> Vec<(u16, Vec<i64>)> {
     let mut out = Vec::new();
     let mut st: Vec<i64> = Vec::new();
     let mut i = 0;
